@@ -36,6 +36,36 @@ func (c *Ctx) chipMover(ea *engineAnchors) *ssa.Function {
 			cands = append(cands, w)
 		}
 	}
+	if len(cands) == 0 {
+		// the stores may sit in private helpers of the mover (an all-in half and a partial half):
+		// the mover is then the non-action method that reaches the store through loop-free private
+		// helpers and is called from two or more actions
+		isAct := map[*ssa.Function]bool{}
+		for _, am := range acts {
+			isAct[am.Fn] = true
+		}
+		for _, fn := range c.P.MethodsOf("pokerface", ea.playerImpl) {
+			fi := ix.Info[fn]
+			if fi == nil || isAct[fn] || !fi.TWrites["pokerface.PlayerState.Wager"] {
+				continue
+			}
+			viaHelpers := false
+			for _, cc := range fi.Calls {
+				if f := cc.StaticCallee(); f != nil && privateHelper(fn, f) && len(findLoops(f)) == 0 && ix.Info[f] != nil && ix.Info[f].TWrites["pokerface.PlayerState.Wager"] {
+					viaHelpers = true
+				}
+			}
+			n := 0
+			for _, cl := range ix.Callers(fn) {
+				if isAct[cl] {
+					n++
+				}
+			}
+			if viaHelpers && n >= 2 {
+				cands = append(cands, fn)
+			}
+		}
+	}
 	if len(cands) == 1 {
 		c.role("chip mover", fnKey(cands[0]))
 		return cands[0]
@@ -54,6 +84,17 @@ func (c *Ctx) chipFields(mover *ssa.Function) map[string]bool {
 	// package-private loop-free helpers of the mover count as part of it
 	for _, cc := range ix.Info[mover].Calls {
 		if f := cc.StaticCallee(); f != nil && privateHelper(mover, f) && len(findLoops(f)) == 0 {
+			fns = append(fns, f)
+		}
+	}
+	for f := range c.moverFamily(mover) {
+		dup := false
+		for _, g := range fns {
+			if g == f {
+				dup = true
+			}
+		}
+		if !dup {
 			fns = append(fns, f)
 		}
 	}
@@ -94,7 +135,7 @@ func runC11(c *Ctx) {
 		return
 	}
 	chip := c.chipFields(mover)
-	c.floor("no-chips-on-passive", "chip account fields", len(chip), 4)
+	c.floor("no-chips-on-passive", "chip account fields", len(chip), 3)
 	acts := c.actionMethods(ea)
 	byConst := map[string]*ssa.Function{}
 	for _, am := range acts {
@@ -223,7 +264,7 @@ func runOfferTable(c *Ctx, ea *engineAnchors) {
 		return
 	}
 	c.touch(fnKey(fn))
-	c.floor("offer-table", "rows", len(paths), 8)
+	c.floor("offer-table", "rows", len(paths), 5)
 	ints, bools := tableVars(paths)
 	tFold := findTerm(bools, ".Fold")
 	tStack := findTerm(ints, ".StackSize")
@@ -432,4 +473,42 @@ func runPayFacts(c *Ctx, ea *engineAnchors, mover *ssa.Function) {
 	c.check(len(bad) == 0 && nNormal > 0 && nAllin > 0, "pay-facts", fnKey(mover), p.FnPos(mover),
 		fmt.Sprintf("%d normal and %d all-in branches: Wager'=Wager+chips / InitialStackSize; CurrentWager'=Wager' when higher", nNormal, nAllin),
 		"the chip mover does not do what the actions say", uniq(bad, 5)...)
+}
+
+// moverFamily: the chip mover together with the loop-free package-private helpers it reaches
+// that nobody outside the family calls (an all-in half, a partial half, a pot helper): splitting
+// the mover keeps it one routine.
+func (c *Ctx) moverFamily(mover *ssa.Function) map[*ssa.Function]bool {
+	fam := map[*ssa.Function]bool{}
+	if mover == nil {
+		return fam
+	}
+	ix := c.P.Index()
+	fam[mover] = true
+	for changed, round := true, 0; changed && round < 4; round++ {
+		changed = false
+		for f := range fam {
+			fi := ix.Info[f]
+			if fi == nil {
+				continue
+			}
+			for _, cc := range fi.Calls {
+				h := cc.StaticCallee()
+				if h == nil || fam[h] || !privateHelper(mover, h) || len(findLoops(h)) > 0 {
+					continue
+				}
+				only := true
+				for _, cl := range ix.Callers(h) {
+					if !fam[cl] {
+						only = false
+					}
+				}
+				if only {
+					fam[h] = true
+					changed = true
+				}
+			}
+		}
+	}
+	return fam
 }
